@@ -702,6 +702,14 @@ func doReplay(ck *Check, path, root string) int {
 			sigs[k] = append(sigs[k], v.Sig)
 			if k == 0 {
 				fmt.Printf("  violation: %s\n    %s\n", v.Sig, trimTo(v.Msg, 800))
+				if d := os.Getenv("VERIF_DET_DUMP"); d != "" {
+					_ = os.MkdirAll(d, 0o755)
+					f, err := os.OpenFile(filepath.Join(d, "violations.txt"), os.O_CREATE|os.O_APPEND|os.O_WRONLY, 0o644)
+					if err == nil {
+						fmt.Fprintf(f, "== %s\n%s\n", v.Sig, v.Msg)
+						f.Close()
+					}
+				}
 			}
 		}
 		fps[k] = fingerprintOf(res)
